@@ -426,6 +426,18 @@ def rules(rep, m):
     else:
         raise AnalysisBroken("cannot derive the location read by cmb_event_current ('%s')" % where_cur)
 
+    # the slot must also survive a capacity doubling while the action runs
+    from .c02 import grow_copies_whole_heap
+    okg, desc = grow_copies_whole_heap(m)
+    r5.instance("growth copies the whole old heap including slot 0: %s (%s)" % (okg, desc))
+    if not okg:
+        rep.finding(r5, "hashheap_grow", "current-slot:lost-on-grow", "when the event queue grows (an action schedules events) "
+                    "the old heap is copied as %s, which does not include slot 0: the current-event query then reads "
+                    "uninitialised memory" % desc, where="src/cmi_hashheap.c")
+        r5.fail()
+    else:
+        r5.ok()
+
     # R-C01-6 ------------------------------------------------------------------
     r6 = rep.rule("R-C01-6", "reschedule changes only the time (priority read back from the queue for the same "
                   "handle) and reprioritise changes only the priority (time read back)", floor=2)
